@@ -277,6 +277,11 @@ def _more_builders():
       if e == 'name': tl.append(m.system_name(payload=ctx.bytes(self.n('sysname'), 3)))
       elif e == 'desc': tl.append(m.system_description(payload=ctx.bytes(self.n('sysdesc'), k)))
       elif e == 'pdesc': tl.append(m.port_description(payload=ctx.bytes(self.n('pdesc'), 2)))
+      elif e in ('longdesc', 'longorg'):
+        # information strings of 256..511 octets need the ninth bit of the TLV length (two symbolic bytes at the ends, the rest concrete)
+        ln = {'longdesc': 300, 'longorg': 511 - 4}[e]
+        body = env.tobytes(ctx, [self.i('lfirst', 8)] + [(j * 7 + 1) & 0xff for j in range(ln - 2)] + [self.i('llast', 8)])
+        tl.append(m.system_description(payload=body) if e == 'longdesc' else m.organizationally_specific(oui=b'\x00\x12\x0f', subtype=1, payload=body))
       elif e == 'caps':
         # pack()/parse() branch on every capability bit: two bits of each word are symbolic, the others alternate
         c = m.system_capabilities(); cb = {0: ctx.bool(self.n('cap0')), 15: ctx.bool(self.n('cap15'))}; eb = {3: ctx.bool(self.n('en3')), 8: ctx.bool(self.n('en8'))}
@@ -592,6 +597,8 @@ STACKS = {
   'lldp_caps':  lambda b: [b.eth(0x88cc), b.lldp(('caps',))],
   'lldp_mgmt':  lambda b: [b.eth(0x88cc), b.lldp(('mgmt',))],
   'lldp_org_unknown': lambda b: [b.eth(0x88cc), b.lldp(('org', 'unknown'))],
+  'lldp_long_desc': lambda b: [b.eth(0x88cc), b.lldp(('longdesc',))],
+  'lldp_long_org': lambda b: [b.eth(0x88cc), b.lldp(('name', 'longorg'))],
   'nd_rs':      lambda b: [b.eth(0x86dd), b.ipv6(58), b.icmpv6(133, 0), b.nd('rs')],
   'nd_rs_slla': lambda b: [b.eth(0x86dd), b.ipv6(58), b.icmpv6(133, 0), b.nd('rs', ('slla',))],
   'nd_ra':      lambda b: [b.eth(0x86dd), b.ipv6(58), b.icmpv6(134, 0), b.nd('ra')],
